@@ -4,7 +4,7 @@ Implementation of hooks and APIs for outputting log messages.
 
 import traceback
 import inspect
-from threading import Lock
+from threading import Lock, RLock
 from functools import wraps
 from io import IOBase
 import warnings
@@ -56,6 +56,9 @@ class Destinations(object):
         self._destinations = [BufferingDestination()]
         self._any_added = False
         self._globalFields = {}
+        # Serializes the start-up buffering phase and the hand-over from the
+        # buffer to the first real destinations, see send() and add().
+        self._lock = RLock()
 
     def addGlobalFields(self, **fields):
         """
@@ -78,6 +81,18 @@ class Destinations(object):
         @type message: L{dict}
 
         @param logger: The ``ILogger`` that wrote the message, if any.
+        """
+        if self._any_added:
+            return self._send(message, logger)
+        # Still buffering, or the first add() is handing the buffer over to
+        # its destinations right now: wait for it, so that this message is
+        # neither lost nor delivered ahead of the buffered ones.
+        with self._lock:
+            return self._send(message, logger)
+
+    def _send(self, message, logger=None):
+        """
+        Deliver a message to the current destinations, see L{send}.
         """
         # Decide this before merging in the global fields: a global field
         # called "message_type" must not disable the recursion guard below.
@@ -130,18 +145,20 @@ class Destinations(object):
         @param destinations: A list of callables that takes message
             dictionaries.
         """
-        buffered_messages = None
-        if not self._any_added:
-            # These are first set of messages added, so we need to clear
-            # BufferingDestination:
+        with self._lock:
+            buffered_messages = None
+            if not self._any_added:
+                # These are first set of messages added, so we need to clear
+                # BufferingDestination:
+                buffered_messages = self._destinations[0].messages
+                self._destinations = []
+            self._destinations.extend(destinations)
+            if buffered_messages:
+                # Re-deliver buffered messages:
+                for message in buffered_messages:
+                    self._send(message)
+            # Only now may other threads stop waiting for the hand-over:
             self._any_added = True
-            buffered_messages = self._destinations[0].messages
-            self._destinations = []
-        self._destinations.extend(destinations)
-        if buffered_messages:
-            # Re-deliver buffered messages:
-            for message in buffered_messages:
-                self.send(message)
 
     def remove(self, destination):
         """
